@@ -8,7 +8,7 @@ from .. import logic
 from ..program import FuncModel
 from ..report import Check
 from ..repo import own_walk, text
-from .common import (ATTR_FIELDS, GrowthModel, callee_name, escapes, expanded_assertions, fresh_diagrams,
+from .common import (ATTR_FIELDS, SD_MOD, GrowthModel, callee_name, escapes, expanded_assertions, fresh_diagrams,
                      handle_stores, is_empty_list, is_none, is_true, region_of)
 
 EXPLANATION = (
@@ -48,6 +48,7 @@ def run(ck: Check) -> None:
     r1(ck, gm)
     r2(ck)
     r3(ck)
+    r4(ck)
     ck.floor("R1", 8)
     ck.floor("R2", 7)
     ck.floor("R3", 2)
@@ -151,6 +152,61 @@ def _reaches_without(fm: FuncModel, at, cuts, loop) -> bool:
     if start is at:
         return True
     return at.id in reach_stop(fm, start, cut_ids, stops)
+
+
+# ------------------------------------------------------------------------------------------ R4
+def r4(ck: Check) -> None:
+    """Everything a diagram remembers about its nodes lives in the node data, where the reset discipline (R1-R3), the
+    reclaim table and the persistence rules of C16 can see it. The attributes of the diagram object itself are set when it
+    is built or unpickled; a method that assigns one later is keeping state of its own. That is accepted only for a value
+    derived from the diagram's own normalised network objects (`self.network`, `self.symbolic`) -- laziness -- and not for
+    anything computed from the nodes, the size of the diagram, or an object the caller still owns."""
+    prog = ck.prog
+    n = 0
+    for fm in prog.models():
+        f = fm.f
+        if f.cls != "SuccessionDiagram" or f.name in ("__init__", "__setstate__") or f.parent is not None:
+            continue
+        for st in own_walk(f.node):
+            tgts = st.targets if isinstance(st, ast.Assign) else [st.target] if isinstance(st, (ast.AugAssign, ast.AnnAssign)) else []
+            for t in tgts:
+                if not (isinstance(t, ast.Attribute) and isinstance(t.value, ast.Name) and t.value.id == "self"):
+                    continue
+                n += 1
+                val = getattr(st, "value", None)
+                bad = None
+                if val is None:
+                    continue
+                seen: set[str] = set()
+                todo = [(val, fm.cfgn(st))]
+                while todo and bad is None:
+                    e, at = todo.pop()
+                    for y in ast.walk(e):
+                        if isinstance(y, ast.Attribute) and isinstance(y.value, ast.Name) and y.value.id == "self":
+                            par = f.parents.get(y)
+                            called = isinstance(par, ast.Call) and par.func is y
+                            if called or y.attr not in ("network", "symbolic"):
+                                bad = f"self.{y.attr}{'(..)' if called else ''}"
+                        elif isinstance(y, ast.Call) and isinstance(y.func, ast.Name) and y.func.id == "len" and y.args \
+                                and isinstance(y.args[0], ast.Name) and y.args[0].id == "self":
+                            bad = "len(self)"
+                        elif isinstance(y, ast.Name) and isinstance(y.ctx, ast.Load) and y.id not in ("self",) and y.id not in f.params() \
+                                and y.id not in seen:
+                            seen.add(y.id)
+                            for d in fm.cfg.reaching_defs(y.id, at):
+                                a = d.ast
+                                if d.kind == "stmt" and isinstance(a, (ast.Assign, ast.AnnAssign)) and getattr(a, "value", None) is not None:
+                                    todo.append((a.value, d))
+                                elif d.kind in ("for", "with"):
+                                    todo.append((a.iter if d.kind == "for" else a.items[0].context_expr, d))
+                ck.ob("R4", fm, st, bad is None,
+                      f"`self.{t.attr}` derived from the diagram's own network objects only" if bad is None else
+                      f"`self.{t.attr}` is assigned outside the constructor from `{bad}`: state that the diagram keeps about itself "
+                      f"beside the node data is invisible to the invalidation on growth, to reclaim_node_data and to pickling, so "
+                      f"what it answers later depends on what was asked before", key=f"attribute {t.attr} set in {f.name}")
+    if n == 0:
+        ck.ob("R4", prog.fm(SD_MOD, "SuccessionDiagram.__init__"), prog.fm(SD_MOD, "SuccessionDiagram.__init__").f.node, True,
+              "no method assigns an attribute of the diagram after construction", key="no late attributes")
 
 
 # ------------------------------------------------------------------------------------------ R2
